@@ -279,3 +279,56 @@ def drivers_mir_dump():
         with open(os.path.join(WORK, "mir", "c09_gen.status"), "w") as f:
             f.write(gen_err or "ok")
     return out
+
+
+def fork_map(fn, items, jobs):
+    """map over items in fork()ed children (nestable, unlike multiprocessing.Pool; children inherit
+    z3 objects by memory copy and each has the z3 context for itself).  Results must be picklable.
+    An exception in a child is re-raised here as Inconclusive."""
+    import pickle
+    items = list(items)
+    results = [None] * len(items)
+    running = {}
+    nxt = 0
+
+    def reap(pid, idx, rfd):
+        with os.fdopen(rfd, "rb") as f:
+            data = f.read()
+        os.waitpid(pid, 0)
+        if not data:
+            raise Inconclusive("worker for item %d died without a result" % idx)
+        ok, val = pickle.loads(data)
+        if not ok:
+            raise Inconclusive(val)
+        results[idx] = val
+
+    import select
+    while nxt < len(items) or running:
+        while nxt < len(items) and len(running) < max(1, jobs):
+            rfd, wfd = os.pipe()
+            sys.stdout.flush()
+            sys.stderr.flush()
+            pid = os.fork()
+            if pid == 0:
+                os.close(rfd)
+                try:
+                    try:
+                        out = (True, fn(items[nxt]))
+                    except Inconclusive as e:
+                        out = (False, str(e))
+                    except BaseException as e:
+                        import traceback
+                        out = (False, "worker error: %s\n%s" % (e, traceback.format_exc()[-1500:]))
+                    with os.fdopen(wfd, "wb") as f:
+                        f.write(pickle.dumps(out))
+                finally:
+                    os._exit(0)
+            os.close(wfd)
+            running[rfd] = (pid, nxt)
+            nxt += 1
+        ready, _, _ = select.select(list(running), [], [], 1.0)
+        for rfd in ready:
+            # a readable pipe may deliver data in pieces; read to EOF in reap()
+            pid, idx = running.pop(rfd)
+            reap(pid, idx, rfd)
+    return results
